@@ -22,6 +22,12 @@ CONFIG = """
 \tincludeRegexp = .*/x
 [refgroup "tags.xs"]
 \tincludeRegexp = refs/.*/x
+[refgroup "Rel"]
+\tinclude = refs/tags
+[refgroup "rel"]
+\tinclude = refs/heads/main
+[refgroup "Rel.Sub-1"]
+\tincludeRegexp = refs/tags/.*x
 """
 
 
@@ -113,6 +119,10 @@ def pairs_for(rng, refs):
         (["-v", "--refgroup=tags.xs"], ["-v", "--include=@tags.xs"]),
         (["--json", "--refgroup=mine.out", "--exclude", "refs/stash"], ["--json", "--include=@mine.out", "--exclude", "refs/stash"]),
         (["--json", "--refgroup", "tags", "--exclude", "refs/tags/x"], ["--json", "--include", "@tags", "--exclude", "refs/tags/x"]),
+        (["--json", "--refgroup", "Rel"], ["--json", "--include", "@Rel"]),
+        (["--json", "--refgroup=rel"], ["--json", "--include=@rel"]),
+        (["--json", "--json-version=2", "--refgroup=Rel.Sub-1"], ["--json", "--json-version=2", "--include=@Rel.Sub-1"]),
+        (["-v", "--show-refs", "--refgroup", "Rel", "--exclude=@rel"], ["-v", "--show-refs", "--include=@Rel", "--exclude", "@rel"]),
         (["--json", "--branches"], ["--json", "--include", "refs/heads"]),
         (["--json", "--no-tags"], ["--json", "--exclude", "refs/tags"]),
         (["--json", "--stash"], ["--json", "--include", "/refs/stash/"]),
